@@ -23,6 +23,12 @@
 #include <cstdlib>
 #include <assert.h>
 
+// Build the tables shared by all chips before any thread can create one
+static struct MameOPN2TablesInit
+{
+    MameOPN2TablesInit() { ym2612_init_tables(); }
+} s_mameOPN2TablesInit;
+
 MameOPN2::MameOPN2(OPNFamily f)
     : OPNChipBaseT(f)
 {
